@@ -311,6 +311,10 @@ def stage_view_corr(ctx: Ctx):
                     mwe = m_ws + len(mwin)
             n_we = len(mF) if mwe is None else min(mwe, len(mF))
             n_ws = min(mws, n_we)
+            # reading the items heals the window persistently: a window clipped by a shrunken field stays clipped when the field grows again
+            mws = n_ws
+            if mwe is not None:
+                mwe = n_we
             if (mdesc and mdesc[0] != 'external' and err != mexp_err) or getids() != mF or item_ids != mF[n_ws:n_we]:
                 ctx.violation(f'view|{kind}|{mdesc[0] if mdesc else "?"}', 'a view operation is not the Python list operation on its window (or touched the field outside it)',
                               {'field_kind': kind, 'initial_ids': ids, 'view_start': st, 'view_stop': sp, 'ops': mirror_log,
